@@ -393,6 +393,18 @@ def bigarith_family():
     return out
 
 
+def sizecap_family():
+    """values at the size up to which level 2 pre-executes arithmetic (63 limbs for an integer): the command that crosses
+    it is left to run time, with everything before it already done - for each arithmetic command"""
+    out = []
+    for bits in (2014, 2015, 2016):
+        p = push_value(1 << bits)
+        for body in ('흑... 하앙...', '형.. 하앗...', '흑... 흐읏...', '형.. 흐읍...', '형... 흡... 하앗...'):
+            out.append('%s %s 흣. 항. 항.' % (p, body))
+            out.append('형.... 항. %s %s 흣. 형... 항..' % (p, body))
+    return out
+
+
 def volume_family():
     """pre-executed prefixes that write a lot (more than any internal buffer size) inside ONE top-level command"""
     wide = '흐' + '으' * 8998 + '윽'
@@ -446,6 +458,8 @@ def run_c02(tier):
     from .eng_compile import fam_highstack
     for c in chunks(fam_highstack(), 50):
         tasks.append(('highstack', c, ['ab\nc'], 400))
+    for c in chunks(sizecap_family(), 3):
+        tasks.append(('sizecap', c, [''], 1500))
     for c in chunks(volume_family(), 1):
         tasks.append(('volume', c, ['ab\nc'], 60000))
     lf = labelflow_family()
@@ -478,7 +492,7 @@ def run_c02(tier):
                   'renumbering': {'alphabets': [S24, F12], 'programs': len(ren)},
                   'renumbering_3_high_stacks': {'alphabet': S3, 'programs': len(ren3)},
                   'bailout_programs': len(bailout_family()), 'budget_programs': len(budget_family(tier)),
-                  'mixed_programs': len(mixed_family()), 'labelflow_programs': len(lf), 'size_ladder_programs': len(sp), 'programs_through_the_command_line_in_every_level_spelling': len(cli),
+                  'mixed_programs': len(mixed_family()), 'size_cap_programs': len(sizecap_family()), 'labelflow_programs': len(lf), 'size_ladder_programs': len(sp), 'programs_through_the_command_line_in_every_level_spelling': len(cli),
                   'level_spellings': [' '.join(o) or '(no flag)' for _, o in SPELLINGS],
                   'pseudo_terminal': sorted(st.sets.get('pty', ())), 'curated_programs': len(cur), 'curated_inputs': len(cin),
                   'step_budget': {'budget/mixed/curated families': B, 'other families': 400}, 'inconclusive_after_8x_budget': st.n.get('inconclusive', 0)},
